@@ -197,7 +197,7 @@ pub fn micro(p: &TProgram, h: &Hyp, s: &MState, t: usize, op: &Op, j: u8, uv: u6
         Op::WHasChanged(w) => match s.tasks[t].wrx[*w] {
             None => skip(n),
             Some(seen) => {
-                if !s.watches[*w].tx_alive {
+                if s.watches[*w].tx_count == 0 {
                     done(n, ex("err"))
                 } else {
                     done(n, ex((seen != s.watches[*w].ver).to_string()))
@@ -216,7 +216,7 @@ pub fn micro(p: &TProgram, h: &Hyp, s: &MState, t: usize, op: &Op, j: u8, uv: u6
                         n.tasks[t].wrx[w] = Some(s.watches[w].ver);
                         n.tasks[t].tmp = R_TRUE;
                         cont(n, 1)
-                    } else if !s.watches[w].tx_alive {
+                    } else if s.watches[w].tx_count == 0 {
                         n.tasks[t].tmp = R_ERR;
                         cont(n, 1)
                     } else {
@@ -256,7 +256,7 @@ pub fn micro(p: &TProgram, h: &Hyp, s: &MState, t: usize, op: &Op, j: u8, uv: u6
             }
             match j {
                 0 => {
-                    n.watches[*w].tx_alive = false;
+                    n.watches[*w].tx_count -= 1;
                     cont(n, 1)
                 }
                 _ => {
